@@ -245,8 +245,8 @@ func (w *World) Scan(faults []Fault) *Line {
 	}
 	// ghost: a cloud-accepted scale-up
 	for _, g := range w.Gorder {
-		if acceptedScaleUp(calls, g) {
-			w.Accepted[g] = w.Now
+		if ok, at := acceptedScaleUp(calls, g); ok {
+			w.Accepted[g] = at
 		}
 	}
 	if line.Ret == "notingroup" || line.Exit || line.Crash {
@@ -268,8 +268,8 @@ func (w *World) Scan(faults []Fault) *Line {
 }
 
 // acceptedScaleUp: the provider accepted an increase for g in this scan (IncreaseSize returned nil).
-func acceptedScaleUp(calls []Call, g string) bool {
-	fleet, attachOK, attachFail := false, 0, 0
+func acceptedScaleUp(calls []Call, g string) (bool, int) {
+	fleet, attachOK, attachFail, at := false, 0, 0, 0
 	for _, c := range calls {
 		if c.G != g {
 			continue
@@ -277,19 +277,20 @@ func acceptedScaleUp(calls []Call, g string) bool {
 		switch c.Op {
 		case "set_desired":
 			if c.Ok {
-				return true
+				return true, c.T
 			}
 		case "create_fleet":
 			fleet = c.Ok
 		case "attach":
 			if c.Ok {
 				attachOK++
+				at = c.T
 			} else {
 				attachFail++
 			}
 		}
 	}
-	return fleet && attachOK > 0 && attachFail == 0
+	return fleet && attachOK > 0 && attachFail == 0, at
 }
 
 // Writes counts the mutating calls per group in a call list.
